@@ -12,7 +12,8 @@
 """
 import random
 
-from ..asmcore import explore, explore_replay, replay_all, kinds_of
+from ..asmcore import explore, explore_given, explore_replay, replay_all, kinds_of
+from .. import gen as generators
 from ..common import MachineryError
 from ..drive import asm, mods, pmap
 from .. import corpus
@@ -162,6 +163,11 @@ def main(run):
     recs2, inc2 = explore(run, "OrderAlphabet", "LayoutIncFiles", 7, 1, [512], simulate=(6000 if thorough else 700), depth=8,
                           seed=run.seed + 13, label="AsmCore order simulation (<= 7 stmts)")
     tasks += replay_all(run, recs2, inc2, {"harness_link": True}, nontrivial)
+    rnd = random.Random(run.seed + 41)
+    progs = [generators.lazy_program(rnd, own_link=False) for _ in range(3000 if thorough else 300)]
+    recs3, inc3 = explore_given(run, progs, "LayoutIncFiles", [512], label=f"AsmCore given: {len(progs)} generated lazy-engine programs")
+    tasks += replay_all(run, recs3, inc3, {"harness_link": True}, nontrivial)
+    run.note("lazy_engine_programs", {"generated": len(progs), "accepted_by_spec": sum(1 for r in recs3 if r["ok"])})
     ex = [t for t in tasks if nontrivial(t[0])]
     if ex:
         run.sample({"abstract": ex[len(ex) // 2][0]["files"], "predicted": ex[len(ex) // 2][0]["runs"][0]})
